@@ -352,6 +352,27 @@ class _ScipyProxy:
 
 
 _REAL_SCIPY = backend_np.scipy
+
+# RNG seam of the dependency: scipy.sparse.linalg.svds (partial-SVD policies; rank-1 step of the EAT truncation in fpeps) draws its ARPACK start
+# vector from OS entropy when no generator is passed.  The simulator owns that source: the generator is derived from (world seed, task, op, call
+# ordinal inside the op), so an op's result is a function of its identity, not of the process history, and replays are exact.
+_ORIG_SVDS = _REAL_SCIPY.sparse.linalg.svds
+
+
+def _seeded_svds(A, *args, **kwargs):
+    if kwargs.get("rng") is None and kwargs.get("random_state") is None and kwargs.get("v0") is None and len(args) < 5:
+        w = _WORLD[0]
+        if w is not None:
+            w.krng = getattr(w, "krng", 0) + 1
+            w.stats["rng_svds_start_vectors_scripted"] += 1
+            sd = subseed(w.seed, "svds", w.cur_task, w.cur_uid, w.krng)
+        else:
+            sd = 0
+        kwargs["rng"] = np.random.default_rng(sd)
+    return _ORIG_SVDS(A, *args, **kwargs)
+
+
+_REAL_SCIPY.sparse.linalg.svds = _seeded_svds
 _SCIPY_PROXY = _ScipyProxy(_REAL_SCIPY)
 
 
@@ -438,6 +459,7 @@ class World:
         self.k = 0
         self.kp = 0
         self.ks = 0
+        self.krng = 0
         self.seq += 1
 
     def addr(self):
